@@ -499,6 +499,8 @@ type ModItem struct {
 type LoopSpec struct {
 	Ordinal    int
 	Invariants []*Clause
+	Complete   bool   // "loop k complete": the loop is left only through its header (no break/return/goto out of the body)
+	CompleteAt string // source position of the directive
 }
 
 type AtSpec struct { // ghost updates / asserts anchored at a call site
@@ -780,11 +782,21 @@ func (c *Contracts) parseFile(path, pkg string) error {
 			var k int
 			var kw2 string
 			parts := strings.Fields(rest)
-			if len(parts) < 3 {
+			if len(parts) < 2 || (len(parts) < 3 && parts[1] != "complete") {
 				return fmt.Errorf("%s: malformed loop clause", where)
 			}
 			fmt.Sscanf(parts[0], "%d", &k)
 			kw2 = parts[1]
+			if kw2 == "complete" {
+				ls := cur.Loops[k]
+				if ls == nil {
+					ls = &LoopSpec{Ordinal: k}
+					cur.Loops[k] = ls
+				}
+				ls.Complete = true
+				ls.CompleteAt = where
+				break
+			}
 			if kw2 != "invariant" {
 				return fmt.Errorf("%s: expected 'invariant' after loop ordinal", where)
 			}
